@@ -441,6 +441,10 @@ func (c *FCGIClient) Request(p map[string]string, req io.Reader) (resp *http.Res
 		if err != nil {
 			return
 		}
+		if resp.StatusCode < 100 || resp.StatusCode > 999 {
+			err = errors.New("fastcgi: responder sent an invalid status code: " + statusParts[0])
+			return
+		}
 		if len(statusParts) > 1 {
 			resp.Status = statusParts[1]
 		}
